@@ -357,6 +357,8 @@ OPS = {
     "exh_optimize": lambda p: p.optimize_by_exhaustive_search(),
     "rnd_optimize": lambda p: p.optimize_by_random_mutations(),
     "circ_resolve": lambda p: p.resolve_constraints(),
+    # only the constraints at even positions of the list are asked to be solved
+    "resolve_filtered": lambda p: p.resolve_constraints(cst_filter=lambda c, _ids=None: id(c) in {id(x) for x in p.constraints[::2]}),
 }
 
 
